@@ -16,7 +16,13 @@ import (
 //     annotation-validity tests; util.IsPodTerminated,
 //   * fitsNodeAndReservation: the policy switch; fitsReservation: the non-negative clamp comes AFTER the
 //     preemptible subtraction,
-//   * reservationCache: every mutating entry point is one critical section (Lock + deferred Unlock first).
+//   * reservationCache: every mutating entry point is one critical section (Lock + deferred Unlock first),
+//   * frameworkext/eventhandlers (several profiles): the loop of deleteReservationFromSchedulerCache ranges over
+//     GetAllReservationCaches(), calls DeleteReservation unconditionally and has NO break / return / continue / goto;
+//     GetAllReservationCaches' Range callback always returns true; the guard order of updateReservation with the
+//     cache function each case calls (locals resolved to their defining calls, parameters named #i), the
+//     delete-then-add guard of updateReservationInSchedulerCache, toReservation's shapes, isReservationActive,
+//     the plugin's reservationEventHandler gates.
 func c05Shape(x ast.Expr) string {
 	switch v := x.(type) {
 	case *ast.ParenExpr:
@@ -80,6 +86,311 @@ func c05Calls(n ast.Node, sel string) token.Pos {
 		return true
 	})
 	return pos
+}
+
+// c05Resolve renders x with local identifiers replaced by the shape of their (single) defining expression and the
+// function's parameters by #index, so that renaming locals does not change the fact
+func c05Resolve(x ast.Expr, defs map[string]ast.Expr, params map[string]int, depth int) string {
+	switch v := x.(type) {
+	case *ast.ParenExpr:
+		return c05Resolve(v.X, defs, params, depth)
+	case *ast.BinaryExpr:
+		return "(" + c05Resolve(v.X, defs, params, depth) + " " + v.Op.String() + " " + c05Resolve(v.Y, defs, params, depth) + ")"
+	case *ast.UnaryExpr:
+		return v.Op.String() + c05Resolve(v.X, defs, params, depth)
+	case *ast.CallExpr:
+		name := "?"
+		switch f := v.Fun.(type) {
+		case *ast.Ident:
+			name = f.Name
+		case *ast.SelectorExpr:
+			name = f.Sel.Name
+		}
+		args := make([]string, len(v.Args))
+		for i, a := range v.Args {
+			args[i] = c05Resolve(a, defs, params, depth)
+		}
+		return name + "(" + strings.Join(args, ",") + ")"
+	case *ast.SelectorExpr:
+		return c05Resolve(v.X, defs, params, depth) + "." + v.Sel.Name
+	case *ast.BasicLit:
+		return v.Value
+	case *ast.Ident:
+		if v.Name == "nil" || v.Name == "true" || v.Name == "false" {
+			return v.Name
+		}
+		if i, ok := params[v.Name]; ok {
+			return fmt.Sprintf("#%d", i)
+		}
+		if d, ok := defs[v.Name]; ok && depth < 4 {
+			return c05Resolve(d, defs, params, depth+1)
+		}
+		return "_"
+	}
+	return "?"
+}
+
+func c05Params(fd *ast.FuncDecl) map[string]int {
+	m := map[string]int{}
+	i := 0
+	for _, f := range fd.Type.Params.List {
+		for _, n := range f.Names {
+			m[n.Name] = i
+			i++
+		}
+	}
+	return m
+}
+
+// top-level `name := expr` / `name, _ := expr` definitions of a function body
+func c05Defs(body *ast.BlockStmt) map[string]ast.Expr {
+	m := map[string]ast.Expr{}
+	for _, st := range body.List {
+		if as, ok := st.(*ast.AssignStmt); ok && as.Tok == token.DEFINE && len(as.Rhs) == 1 {
+			if id, ok := as.Lhs[0].(*ast.Ident); ok {
+				m[id.Name] = as.Rhs[0]
+			}
+		}
+	}
+	return m
+}
+
+// names of the functions called anywhere in n, restricted to `want`, in source order
+func c05CalledOf(n ast.Node, want map[string]bool) []string {
+	var out []string
+	ast.Inspect(n, func(m ast.Node) bool {
+		if c, ok := m.(*ast.CallExpr); ok {
+			name := ""
+			switch f := c.Fun.(type) {
+			case *ast.Ident:
+				name = f.Name
+			case *ast.SelectorExpr:
+				name = f.Sel.Name
+			}
+			if want[name] {
+				out = append(out, name)
+			}
+		}
+		return true
+	})
+	return out
+}
+
+// like c05CalledOf, with the resolved arguments
+func c05CalledArgs(n ast.Node, want map[string]bool, defs map[string]ast.Expr, params map[string]int) []string {
+	var out []string
+	ast.Inspect(n, func(m ast.Node) bool {
+		if c, ok := m.(*ast.CallExpr); ok {
+			name := ""
+			switch f := c.Fun.(type) {
+			case *ast.Ident:
+				name = f.Name
+			case *ast.SelectorExpr:
+				name = f.Sel.Name
+			}
+			if want[name] {
+				args := make([]string, len(c.Args))
+				for i, a := range c.Args {
+					args[i] = c05Resolve(a, defs, params, 0)
+				}
+				out = append(out, name+"("+strings.Join(args, ",")+")")
+			}
+		}
+		return true
+	})
+	return out
+}
+
+func c05Profiles(e *ext) {
+	d := "pkg/scheduler/frameworkext/eventhandlers"
+	cacheFns := map[string]bool{"addReservationToSchedulerCache": true, "updateReservationInSchedulerCache": true,
+		"deleteReservationFromSchedulerCache": true}
+
+	// --- deleteReservationFromSchedulerCache: first guard + the loop over every registered cache ---
+	firstGuard := ""
+	var loopFacts, loopExits []string
+	if fd := e.funcDecl(d, "", "deleteReservationFromSchedulerCache"); fd != nil && fd.Body != nil {
+		params, defs := c05Params(fd), c05Defs(fd.Body)
+		for _, st := range fd.Body.List {
+			if is, ok := st.(*ast.IfStmt); ok {
+				firstGuard = c05Resolve(is.Cond, map[string]ast.Expr{}, params, 0) + ":" + c05Leaves(is)
+				break
+			}
+		}
+		loops := 0
+		for _, st := range fd.Body.List {
+			rs, ok := st.(*ast.RangeStmt)
+			if !ok {
+				continue
+			}
+			loops++
+			loopFacts = append(loopFacts, "range:"+c05Resolve(rs.X, defs, params, 0))
+			for _, bst := range rs.Body.List { // statements executed on EVERY iteration (top level of the body)
+				switch v := bst.(type) {
+				case *ast.AssignStmt:
+					for _, c := range c05CalledArgs(v, map[string]bool{"DeleteReservation": true}, defs, params) {
+						loopFacts = append(loopFacts, "always:"+c)
+					}
+				case *ast.ExprStmt:
+					for _, c := range c05CalledArgs(v, map[string]bool{"DeleteReservation": true}, defs, params) {
+						loopFacts = append(loopFacts, "always:"+c)
+					}
+				}
+			}
+			ast.Inspect(rs.Body, func(n ast.Node) bool {
+				switch v := n.(type) {
+				case *ast.BranchStmt:
+					loopExits = append(loopExits, strings.ToLower(v.Tok.String()))
+				case *ast.ReturnStmt:
+					loopExits = append(loopExits, "return")
+				case *ast.FuncLit:
+					return false
+				}
+				return true
+			})
+		}
+		if loops != 1 {
+			e.fail("deleteReservationFromSchedulerCache: %d range loops, want 1", loops)
+		}
+		// DeleteReservation must not be called outside the loop
+		if n := len(c05CalledOf(fd.Body, map[string]bool{"DeleteReservation": true})); n != 1 {
+			e.fail("deleteReservationFromSchedulerCache: %d DeleteReservation calls, want 1", n)
+		}
+	} else {
+		e.fail("deleteReservationFromSchedulerCache not found")
+	}
+	fmt.Fprintf(&e.out, "def deleteFirstGuard : String := %s\n", leanStr(firstGuard))
+	c05List(&e.out, "cacheLoop", loopFacts)
+	c05List(&e.out, "cacheLoopExits", loopExits)
+
+	// --- GetAllReservationCaches: the Range callback never stops the iteration ---
+	var rangeReturns []string
+	if fd := e.funcDecl("pkg/scheduler/frameworkext", "", "GetAllReservationCaches"); fd != nil && fd.Body != nil {
+		ast.Inspect(fd.Body, func(n ast.Node) bool {
+			if fl, ok := n.(*ast.FuncLit); ok {
+				ast.Inspect(fl.Body, func(m ast.Node) bool {
+					if rs, ok := m.(*ast.ReturnStmt); ok && len(rs.Results) == 1 {
+						rangeReturns = append(rangeReturns, c05Shape(rs.Results[0]))
+					}
+					return true
+				})
+				return false
+			}
+			return true
+		})
+	} else {
+		e.fail("frameworkext.GetAllReservationCaches not found")
+	}
+	c05List(&e.out, "allCachesRangeReturns", rangeReturns)
+
+	// --- updateReservation (scheduler-wide): guard order + the cache function each case calls ---
+	var cases []string
+	if fd := e.funcDecl(d, "", "updateReservation"); fd != nil && fd.Body != nil {
+		params, defs := c05Params(fd), c05Defs(fd.Body)
+		for _, st := range fd.Body.List {
+			is, ok := st.(*ast.IfStmt)
+			if !ok {
+				continue
+			}
+			cases = append(cases, c05Resolve(is.Cond, defs, params, 0)+" => "+strings.Join(c05CalledArgs(is.Body, cacheFns, defs, params), ",")+":"+c05Leaves(is))
+		}
+	} else {
+		e.fail("eventhandlers.updateReservation not found")
+	}
+	c05List(&e.out, "globalUpdateCases", cases)
+
+	var inCache []string
+	if fd := e.funcDecl(d, "", "updateReservationInSchedulerCache"); fd != nil && fd.Body != nil {
+		params, defs := c05Params(fd), c05Defs(fd.Body)
+		for _, st := range fd.Body.List {
+			if is, ok := st.(*ast.IfStmt); ok && len(c05CalledOf(is.Body, cacheFns)) > 0 {
+				inCache = append(inCache, c05Resolve(is.Cond, defs, params, 0)+" => "+strings.Join(c05CalledArgs(is.Body, cacheFns, defs, params), ",")+":"+c05Leaves(is))
+			}
+		}
+	} else {
+		e.fail("updateReservationInSchedulerCache not found")
+	}
+	c05List(&e.out, "globalUpdateInCache", inCache)
+
+	var addCases, delCalls []string
+	if fd := e.funcDecl(d, "", "addReservation"); fd != nil && fd.Body != nil {
+		addCases = c05CalledOf(fd.Body, map[string]bool{"deleteReservationFromSchedulerCache": true, "DeleteReservation": true})
+	} else {
+		e.fail("eventhandlers.addReservation not found")
+	}
+	c05List(&e.out, "globalAddDeletes", addCases)
+	if fd := e.funcDecl(d, "", "deleteReservation"); fd != nil && fd.Body != nil {
+		for _, st := range fd.Body.List { // top level = unconditional
+			if es, ok := st.(*ast.ExprStmt); ok {
+				delCalls = append(delCalls, c05CalledArgs(es, cacheFns, map[string]ast.Expr{}, c05Params(fd))...)
+			}
+		}
+	} else {
+		e.fail("eventhandlers.deleteReservation not found")
+	}
+	c05List(&e.out, "globalDeleteAlways", delCalls)
+
+	active := ""
+	if fd := e.funcDecl(d, "", "isReservationActive"); fd != nil && fd.Body != nil && len(fd.Body.List) == 1 {
+		if rs, ok := fd.Body.List[0].(*ast.ReturnStmt); ok && len(rs.Results) == 1 {
+			active = c05Resolve(rs.Results[0], map[string]ast.Expr{}, c05Params(fd), 0)
+		}
+	} else {
+		e.fail("eventhandlers.isReservationActive not found or not a single return")
+	}
+	fmt.Fprintf(&e.out, "def globalActiveDef : String := %s\n", leanStr(active))
+
+	var shapes []string
+	if fd := e.funcDecl(d, "", "toReservation"); fd != nil && fd.Body != nil {
+		ast.Inspect(fd.Body, func(n ast.Node) bool {
+			if cc, ok := n.(*ast.CaseClause); ok {
+				for _, x := range cc.List {
+					t := x
+					if st, ok := t.(*ast.StarExpr); ok {
+						t = st.X
+					}
+					if se, ok := t.(*ast.SelectorExpr); ok {
+						shapes = append(shapes, se.Sel.Name)
+					} else {
+						shapes = append(shapes, "?")
+					}
+				}
+			}
+			return true
+		})
+	} else {
+		e.fail("eventhandlers.toReservation not found")
+	}
+	c05List(&e.out, "toReservationShapes", shapes)
+
+	// --- the plugin's reservationEventHandler: which gate leads to which cache call ---
+	pd := "pkg/scheduler/plugins/reservation"
+	cacheCalls := map[string]bool{"updateReservation": true, "updateReservationIfExists": true, "DeleteReservation": true}
+	var plug []string
+	for _, fn := range []string{"OnAdd", "OnUpdate", "OnDelete"} {
+		fd := e.funcDecl(pd, "reservationEventHandler", fn)
+		if fd == nil || fd.Body == nil {
+			e.fail("reservationEventHandler.%s not found", fn)
+			continue
+		}
+		for _, st := range fd.Body.List {
+			switch v := st.(type) {
+			case *ast.IfStmt:
+				for cur := v; cur != nil; {
+					if calls := c05CalledOf(cur.Body, cacheCalls); len(calls) > 0 {
+						plug = append(plug, fn+":"+c05Shape(cur.Cond)+" => "+strings.Join(calls, ","))
+					}
+					next, _ := cur.Else.(*ast.IfStmt)
+					cur = next
+				}
+			case *ast.ExprStmt:
+				for _, c := range c05CalledOf(v, cacheCalls) {
+					plug = append(plug, fn+":always => "+c)
+				}
+			}
+		}
+	}
+	c05List(&e.out, "pluginRsvHandler", plug)
 }
 
 func init() {
@@ -246,5 +557,7 @@ func init() {
 			locks = append(locks, fn+":"+kind)
 		}
 		c05List(&e.out, "criticalSections", locks)
+
+		c05Profiles(e)
 	}
 }
